@@ -177,6 +177,7 @@ func (n *Node) open() {
 // Restart closes the Core orderly and opens a new one on the same directory. Peers are gone
 // (connections do not survive a restart); agents have to be registered again by the caller.
 func (n *Node) Restart() {
+	n.Core.VerifCloseAgents()
 	n.Core.Close()
 	n.Peers = map[string]*MockCLA{}
 	n.Agents = nil
@@ -184,6 +185,7 @@ func (n *Node) Restart() {
 }
 
 func (n *Node) Destroy() {
+	n.Core.VerifCloseAgents()
 	n.Core.Close()
 	if n.ownDir {
 		os.RemoveAll(n.Dir)
